@@ -1,0 +1,8 @@
+//go:build !verif
+
+// Package verifhook provides named schedule points for the external
+// verification harness. Without the "verif" build tag every Point is a no-op.
+package verifhook
+
+// Point does nothing unless the package is built with the "verif" tag.
+func Point(string) {}
